@@ -205,8 +205,9 @@ def e2e_histories(ctx):
     n = 1500 if ctx.thorough() else 250
     for _ in range(n):
         k = rnd.randint(2, 4 if ctx.thorough() else 3)
+        # 4th element: the `host=` option (overrides the Host HEADER only; cookies follow the host actually connected to)
         hs.append([(rnd.choice(tg), rnd.choice(rs), rnd.choice([None, None, "c=9"])) for _ in range(k)]
-                  + [(t, None, rnd.choice([None, "c=9"])) for t in rnd.sample(tg, 3)])
+                  + [(t, None, rnd.choice([None, "c=9"]), rnd.choice([None, "x.co", "sub.x.co", "y.co:8080"])) for t in rnd.sample(tg, 3)])
     hs.append([("x.co", ([("a", "1")], "example.com"), None), ("x.co", ([("b", "2")], "EXAMPLE.COM"), None),
                ("example.com", None, None), ("badexample.com", None, "c=9")])
     hs.append([("x.co", ([("a", "1"), ("a1", "2")], "x.co"), None), ("x.co", None, None), ("sub.x.co", None, "c=9")])
@@ -222,12 +223,16 @@ def run_e2e(ctx, hists=None):
     for h in hists:
         HS.CookieJar.jar.clear()
         seen = []
-        for (target, resp, client) in h:
+        for step in h:
+            target, resp, client = step[:3]
+            host_opt = step[3] if len(step) > 3 else None
             net = N.Net(addrs=["a"], set_cookies=render(resp) if resp else [])
             try:
                 with N.patched(net, {}):
                     ws = websocket.WebSocket()
                     kw = {"cookie": client} if client else {}
+                    if host_opt:
+                        kw["host"] = host_opt
                     ws.connect(f"ws://{target}/", **kw)
                 req = net.requests[0].decode("latin1") if net.requests else ""
                 ck = [l[len("Cookie: "):] for l in req.split("\r\n") if l.startswith("Cookie: ")]
@@ -236,12 +241,12 @@ def run_e2e(ctx, hists=None):
                     hdr = "DUPLICATE " + " | ".join(ck)
             except Exception as e:  # noqa
                 hdr = "EXN " + common.canon_exc(e)
-            obs.append((list(seen), target, client, hdr))
+            obs.append((list(seen), target, client, hdr, host_opt))
             if resp:
                 seen.append(resp)
         HS.CookieJar.jar.clear()
     lm, ls, lh = [], [], []
-    for seen, target, client, hdr in obs:
+    for seen, target, client, hdr, host_opt in obs:
         ha = hist_arg(seen)
         host = target.lower()
         lm.append(f"m-cookie-header {ha} {hx(host)} {hx(client or '')}")
@@ -254,9 +259,9 @@ def run_e2e(ctx, hists=None):
     out = common.run_driver_parallel(lm + ls + lh)
     n = len(obs)
     mo, so, ho = out[:n], out[n:2 * n], out[2 * n:]
-    for (seen, target, client, hdr), m, s, hh in zip(obs, mo, so, ho):
+    for (seen, target, client, hdr, host_opt), m, s, hh in zip(obs, mo, so, ho):
         inp = {"op": "handshakes", "responses_so_far": [[list(map(list, cs)), d] for cs, d in seen], "target": target,
-               "client_cookie": client}
+               "client_cookie": client, "host_option": host_opt}
         ctx.case(key=("e2e", hist_arg(seen), target, client), nontrivial=bool(hdr), cls=f"e2e:len{min(len(seen), 4)}:{'cookie' if hdr else 'none'}",
                  sample=dict(inp, cookie_header=hdr) if hdr and client and len(seen) >= 2 and len(ctx.samples) < 10 else None)
         if hdr.startswith(("EXN", "DUPLICATE")):
@@ -290,7 +295,7 @@ def run_inputs(ctx, inputs):
             run_unit(ctx, [h], [inp["target"]])
         elif inp.get("op") == "handshakes":
             seen = [([tuple(p) for p in cs], d) for cs, d in inp["responses_so_far"]]
-            h = [("x.co", r, None) for r in seen] + [(inp["target"], None, inp.get("client_cookie"))]
+            h = [("x.co", r, None) for r in seen] + [(inp["target"], None, inp.get("client_cookie"), inp.get("host_option"))]
             run_e2e(ctx, [h])
 
 
